@@ -221,6 +221,7 @@ def run(rep, tier):
     from vf import par
     from vf.props import c11
     c11.C09_ON_CUT_STATES = True
+    c11.CUT_KINDS = ("SAVE_RESTORE", "AGE")   # C11 itself explores two more cut kinds; as a host two are enough
     n_cut = 0
     for r in par.pmap(c11.explore, c11.tasks(tier)):
         n_cut += r["stats"].get("c09_states_checked", 0)
